@@ -110,76 +110,138 @@ def cmp_of(text, pat, where):
 
 
 def gen():
+    """Every fact is extracted on its own.  A fact whose source shape is no longer recognised is replaced by the value the
+    property statement assumes and named in `unrecognised`; Properties/C13.v holds the obligation `unrecognised = []`, so the
+    check reports the broken tie, while the model still builds and the correspondence run can look for a concrete failing
+    input."""
     env = cat_env()
     out = [F.HEADER]
+    bad = []
+
+    def fact(name, ty, default, fn):
+        try:
+            v = fn()
+        except F.FactError as e:
+            bad.append("%s: %s" % (name, str(e).replace('"', "'")))
+            v = default
+        out.append("Definition %s : %s := %s.\n" % (name, ty, v))
+
+    def coq_chain(rules):
+        return "[ %s ]" % "; ".join('("%s", %s)' % (n, F.coq_int(v)) for n, v in rules)
+
+    nb2, nb1 = env.get("NOOOVBOW2", 1 << 31), env.get("NOOOVBOW", 1 << 30)
+    ns = env.get("ALPHA", 32) | env.get("GREEK", 512) | env.get("CYRILLIC", 1024)
     out.append("(* can_bow chain of InputBuffer::build, in source order; the final else yields true *)\n")
-    rules = bow_chain(env)
-    out.append("Definition bow_chain : list (string * N) :=\n  [ %s ].\n" % ";\n    ".join('("%s", %s)' % (n, F.coq_int(v)) for n, v in rules))
+    fact("bow_chain", "list (string * N)",
+         coq_chain([("prev_forbids", 0), ("forbid_this_and_next", nb2), ("forbid_this", nb1), ("needs_class_change", ns)]),
+         lambda: coq_chain(bow_chain(env)))
     out.append("(* fill_cat_continuity: true = left-to-right segmentation, false = single backward pass *)\n")
-    out.append("Definition continuity_forward : bool := %s.\n" % ("true" if continuity_direction() else "false"))
+    fact("continuity_forward", "bool", "true", lambda: "true" if continuity_direction() else "false")
 
-    mec = norm(F.strip_comments(F.fn_body(F.src(MECAB), "provide_oov_gen", MECAB)))
-    if "if !cinfo.is_invoke && other_words.not_empty() { continue; }" not in mec:
-        raise F.FactError("invoke guard of provide_oov_gen changed")
-    if "if char_len == 0 { return Ok(0); }" not in mec or "let mut llength = char_len;" not in mec:
-        raise F.FactError("prologue of provide_oov_gen changed")
-    m = re.search(r"for i in 1\.\.(=?)cinfo\.length \{", mec)
-    if not m:
-        raise F.FactError("length loop of provide_oov_gen not recognised")
-    out.append("Definition mecab_len_inclusive : bool := %s.\n" % ("true" if m.group(1) else "false"))
-    out.append('Definition mecab_break_cmp : string := "%s".\n' % cmp_of(mec, r"if sublength (>=|>|<=|<|==|!=) llength \{ break; \}", MECAB))
-    m = re.search(r"if cinfo\.is_group \{ for oov in oovs \{ nodes\.push\(self\.get_oov_node\(oov, offset, offset \+ char_len\)\); num_created \+= 1; \} llength -= (\d+); \}", mec)
-    if not m:
-        raise F.FactError("group branch of provide_oov_gen not recognised")
-    out.append("Definition mecab_group_dec : nat := %s.\n" % m.group(1))
-    if "let sublength = input.char_distance(offset, i as usize);" not in mec:
-        raise F.FactError("sublength of provide_oov_gen changed")
-    if "for ctype in input.cat_at_char(offset).iter() {" not in mec:
-        raise F.FactError("class iteration of provide_oov_gen changed")
+    def mec():
+        return norm(F.strip_comments(F.fn_body(F.src(MECAB), "provide_oov_gen", MECAB)))
 
-    sim = norm(F.strip_comments(F.fn_body(F.src(SIMPLE), "provide_oov", SIMPLE)))
-    if "if other_words.not_empty() { return Ok(0); }" not in sim or "input_text.get_word_candidate_length(offset)" not in sim:
-        raise F.FactError("SimpleOovPlugin::provide_oov changed")
+    def mecab_shape():
+        m = mec()
+        for needle, what in (("if !cinfo.is_invoke && other_words.not_empty() { continue; }", "invoke guard"),
+                             ("if char_len == 0 { return Ok(0); }", "prologue"), ("let mut llength = char_len;", "prologue"),
+                             ("let sublength = input.char_distance(offset, i as usize);", "sublength"),
+                             ("for ctype in input.cat_at_char(offset).iter() {", "class iteration")):
+            if needle not in m:
+                raise F.FactError("%s of provide_oov_gen changed" % what)
+        return "true"
+    fact("mecab_shape_recognised", "bool", "true", mecab_shape)
 
-    rx = norm(F.strip_comments(F.src(REGEX)))
-    m = re.search(r"if this_cat \+ (\d+) (==|!=|<=|>=|<|>) prev_cat \{", rx)
-    if not m:
-        raise F.FactError("strict boundary test of RegexOovProvider not recognised")
-    out.append("Definition regex_strict_delta : nat := %s.\n" % m.group(1))
-    out.append('Definition regex_strict_cmp : string := "%s".\n' % m.group(2))
-    m = re.search(r"fn default_max_length\(\) -> usize \{ (\d+) \}", rx)
-    if not m:
-        raise F.FactError("default_max_length of RegexOovProvider not found")
-    out.append("Definition regex_default_max_length : nat := %s.\n" % m.group(1))
+    def len_incl():
+        m = re.search(r"for i in 1\.\.(=?)cinfo\.length \{", mec())
+        if not m:
+            raise F.FactError("length loop of provide_oov_gen not recognised")
+        return "true" if m.group(1) else "false"
+    fact("mecab_len_inclusive", "bool", "true", len_incl)
+    fact("mecab_break_cmp", "string", '">"',
+         lambda: '"%s"' % cmp_of(mec(), r"if sublength (>=|>|<=|<|==|!=) llength \{ break; \}", MECAB))
 
-    cr = norm(F.strip_comments(F.src(CREATED)))
-    m = re.search(r"const\s+MAX_VALUE\s*:\s*\w+\s*=\s*([^;]+);", cr)
-    if not m:
-        raise F.FactError("CreatedWords::MAX_VALUE not found")
-    out.append("Definition created_max_value : N := %s.\n" % F.coq_int(F.const_eval(m.group(1))))
-    if "const MAX_SHIFT: Carrier = CreatedWords::MAX_VALUE - 1;" not in cr or "let shift = min(raw.saturating_sub(1), CreatedWords::MAX_SHIFT);" not in cr:
-        raise F.FactError("shift computation of CreatedWords::single changed")
-    out.append('Definition has_word_maybe_cmp : string := "%s".\n' % cmp_of(cr, r"if length\.into\(\) (>=|>|<=|<|==|!=) CreatedWords::MAX_VALUE as _ \{ HasWord::Maybe \}", CREATED))
-    out.append("Definition single_asserts_positive : bool := %s.\n" % ("true" if "debug_assert!(raw > 0);" in cr else "false"))
+    def group_dec():
+        m = re.search(r"if cinfo\.is_group \{ for oov in oovs \{ nodes\.push\(self\.get_oov_node\(oov, offset, offset \+ char_len\)\); num_created \+= 1; \} llength -= (\d+); \}", mec())
+        if not m:
+            raise F.FactError("group branch of provide_oov_gen not recognised")
+        return m.group(1)
+    fact("mecab_group_dec", "nat", "1", group_dec)
 
-    # the build_lattice of LatticeBuilder is the one with the loop
-    allsrc = F.strip_comments(F.src(TOK))
-    i = allsrc.find("impl<'a> LatticeBuilder<'a>")
-    if i < 0:
-        raise F.FactError("LatticeBuilder impl not found")
-    tk = norm(F.fn_body(allsrc[i:], "build_lattice", TOK))
-    m = re.search(r"if !self \.input \.cat_at_char\(ch_off\) \.intersects\(([^)]*)\) \{ for provider in self\.oov_providers \{", tk)
-    if not m:
-        raise F.FactError("class gate of the provider loop in build_lattice not recognised")
-    out.append("Definition oov_gate_mask : N := %s.\n" % F.coq_int(cat_expr(m.group(1), env, TOK)))
-    m = re.search(r"if created\.is_empty\(\) \{ let provider = self\.oov_providers\.(last|first)\(\)\.unwrap\(\);", tk)
-    if not m:
-        raise F.FactError("fallback provider of build_lattice not recognised")
-    out.append('Definition fallback_provider : string := "%s".\n' % m.group(1))
-    if "if created.is_empty() { return Err(SudachiError::EosBosDisconnect); }" not in tk:
-        raise F.FactError("EosBosDisconnect test of build_lattice changed")
-    if "if !self.lattice.has_previous_node(ch_off) { continue; }" not in tk:
-        raise F.FactError("reachability test of build_lattice changed")
-    m = re.search(r"if \(e\.end < input_bytes\.len\(\)\) && !self\.input\.can_bow\(e\.end\) \{ continue; \}", tk)
-    out.append("Definition lexicon_end_needs_bow : bool := %s.\n" % ("true" if m else "false"))
+    def simple_shape():
+        sim = norm(F.strip_comments(F.fn_body(F.src(SIMPLE), "provide_oov", SIMPLE)))
+        if "if other_words.not_empty() { return Ok(0); }" not in sim or "input_text.get_word_candidate_length(offset)" not in sim:
+            raise F.FactError("SimpleOovPlugin::provide_oov changed")
+        wl = norm(F.strip_comments(F.fn_body(F.src(BUF), "get_word_candidate_length", BUF)))
+        if "for i in (char_idx + 1)..char_len { let byte_idx = self.mod_c2b[i]; if self.can_bow(byte_idx) { return i - char_idx; } } char_len - char_idx" not in wl:
+            raise F.FactError("InputBuffer::get_word_candidate_length changed")
+        return "true"
+    fact("simple_shape_recognised", "bool", "true", simple_shape)
+
+    def rx():
+        return norm(F.strip_comments(F.src(REGEX)))
+
+    def strict():
+        m = re.search(r"if this_cat \+ (\d+) (==|!=|<=|>=|<|>) prev_cat \{", rx())
+        if not m:
+            raise F.FactError("strict boundary test of RegexOovProvider not recognised")
+        return m
+    fact("regex_strict_delta", "nat", "1", lambda: strict().group(1))
+    fact("regex_strict_cmp", "string", '"=="', lambda: '"%s"' % strict().group(2))
+
+    def maxlen():
+        m = re.search(r"fn default_max_length\(\) -> usize \{ (\d+) \}", rx())
+        if not m:
+            raise F.FactError("default_max_length of RegexOovProvider not found")
+        return m.group(1)
+    fact("regex_default_max_length", "nat", "32", maxlen)
+
+    def cr():
+        return norm(F.strip_comments(F.src(CREATED)))
+
+    def maxv():
+        m = re.search(r"const\s+MAX_VALUE\s*:\s*\w+\s*=\s*([^;]+);", cr())
+        if not m:
+            raise F.FactError("CreatedWords::MAX_VALUE not found")
+        if "const MAX_SHIFT: Carrier = CreatedWords::MAX_VALUE - 1;" not in cr() or "let shift = min(raw.saturating_sub(1), CreatedWords::MAX_SHIFT);" not in cr():
+            raise F.FactError("shift computation of CreatedWords::single changed")
+        return F.coq_int(F.const_eval(m.group(1)))
+    fact("created_max_value", "N", "64%N", maxv)
+    fact("has_word_maybe_cmp", "string", '">="',
+         lambda: '"%s"' % cmp_of(cr(), r"if length\.into\(\) (>=|>|<=|<|==|!=) CreatedWords::MAX_VALUE as _ \{ HasWord::Maybe \}", CREATED))
+    fact("single_asserts_positive", "bool", "true", lambda: "true" if "debug_assert!(raw > 0);" in cr() else "false")
+
+    def tk():
+        allsrc = F.strip_comments(F.src(TOK))
+        i = allsrc.find("impl<'a> LatticeBuilder<'a>")
+        if i < 0:
+            raise F.FactError("LatticeBuilder impl not found")
+        return norm(F.fn_body(allsrc[i:], "build_lattice", TOK))
+
+    def gate():
+        m = re.search(r"if !self \.input \.cat_at_char\(ch_off\) \.intersects\(([^)]*)\) \{ for provider in self\.oov_providers \{", tk())
+        if not m:
+            raise F.FactError("class gate of the provider loop in build_lattice not recognised")
+        return F.coq_int(cat_expr(m.group(1), env, TOK))
+    fact("oov_gate_mask", "N", F.coq_int(nb1 | nb2), gate)
+
+    def fallback():
+        m = re.search(r"if created\.is_empty\(\) \{ let provider = self\.oov_providers\.(last|first)\(\)\.unwrap\(\);", tk())
+        if not m:
+            raise F.FactError("fallback provider of build_lattice not recognised")
+        return '"%s"' % m.group(1)
+    fact("fallback_provider", "string", '"last"', fallback)
+
+    def loop_shape():
+        t = tk()
+        if "if created.is_empty() { return Err(SudachiError::EosBosDisconnect); }" not in t:
+            raise F.FactError("EosBosDisconnect test of build_lattice changed")
+        if "if !self.lattice.has_previous_node(ch_off) { continue; }" not in t:
+            raise F.FactError("reachability test of build_lattice changed")
+        return "true"
+    fact("lattice_loop_recognised", "bool", "true", loop_shape)
+    fact("lexicon_end_needs_bow", "bool", "true",
+         lambda: "true" if re.search(r"if \(e\.end < input_bytes\.len\(\)\) && !self\.input\.can_bow\(e\.end\) \{ continue; \}", tk()) else "false")
+    out.append("(* facts whose source shape was not recognised (replaced above by the value the property statement assumes) *)\n")
+    out.append("Definition unrecognised : list string := [%s].\n" % "; ".join('"%s"' % b for b in bad))
     return "".join(out)
